@@ -22,7 +22,7 @@ def main():
         jobs = []
         seen = set()
         for prop, plan in plans.PLANS.items():
-            if 'custom' in plan:
+            if plan.get('custom'):
                 continue
             for sp in runner.plan_specs(plan, 'quick', 1):
                 cpp = emit.emit_cpp(sp)
